@@ -3,6 +3,7 @@ package main
 import (
 	"fmt"
 	"go/types"
+	"hash/fnv"
 	"sort"
 	"strings"
 
@@ -262,7 +263,13 @@ func (u *Universe) structInfo(t types.Type) *StructInfo {
 	} else if named != nil {
 		id = sanitize(named.Obj().Name())
 	} else {
-		id = fmt.Sprintf("anon%d", len(u.structs))
+		// anonymous struct types get a name derived from their structure (stable across runs)
+		h := fnv.New32a()
+		h.Write([]byte(k))
+		id = fmt.Sprintf("anon_%08x", h.Sum32())
+		if st.NumFields() == 0 {
+			id = "anon_empty"
+		}
 	}
 	for n := 2; ; n++ {
 		if _, clash := u.structs[id]; !clash {
